@@ -1,4 +1,5 @@
 import CifModel.Lemmas.ParseCBSkip
+import CifModel.Lemmas.ParseCBErase
 import CifModel.Spec.Traversal
 /-
   Property C15 — parse-time callbacks mirror the document and steer what is stored.
@@ -35,13 +36,6 @@ def C15_all_continue_mirror_full (evEq : List Ev → List Ev → Bool) (cifEq : 
   ∀ d : Doc, evEq (C15_handlerEvents (parseCB (fun _ _ => 0) true (tokensOf d)).1) (docEvents true d) = true
     ∧ (parseCB (fun _ _ => 0) true (tokensOf d)).2.1 = 0
     ∧ cifEq (parseCB (fun _ _ => 0) true (tokensOf d)).2.2 (denote d) = true
-
-/-- syntax-only mode produces the same callbacks (handles erased) and the same result, for programs that do not look
-    at the handles -/
-def C15_syntax_only_same_log_full (erase : Ev → Ev) (evEq : List Ev → List Ev → Bool) : Prop :=
-  ∀ (d : Doc) (p : Prog), (∀ k e, p k e = p k (erase e)) →
-    evEq ((parseCB p true (tokensOf d)).1.map erase) ((parseCB p false (tokensOf d)).1.map erase) = true
-    ∧ (parseCB p true (tokensOf d)).2.1 = (parseCB p false (tokensOf d)).2.1
 
 -- "everything else is stored as in an unfiltered parse", first half: nothing is altered or invented — whatever a filtered
 -- parse stores (block, frame, loop, packet, scalar item) is also stored, with the same value, by the unfiltered parse
@@ -271,6 +265,26 @@ theorem C15_skipped_region_silent (p : Prog) (fuel : Nat) (s : St) (hs : s.skip 
    fun m cont isBlock c => (container_skipped p m fuel).2 cont isBlock s c hs,
    fun m cif acc => blocks_skipped p m cif fuel s acc hs⟩
 
+/-- **Syntax-only mode**: for every token sequence and every handler program that does not look at the handles it is
+    given (`HandleBlind`: in syntax-only mode the container / loop handles are NULL, so only such programs can behave the
+    same), the parse without a target CIF delivers exactly the callbacks of the storing parse — handler, data-name,
+    keyword and whitespace callbacks, in the same order, with the handles erased — and returns the same value; provided
+    the storing parse does not stop on a frame-nesting diagnostic (`MALFORMED`: CIF_FRAME_NOT_ALLOWED / CIF_NO_FRAME_TERM,
+    which parse_container raises only when it has a container handle — input that is not well-formed under the options).
+    Duplicate-name diagnostics are outside the model (documents without duplicates). -/
+theorem C15_syntax_only_same_log (p : Prog) (hp : HandleBlind p) (toks : List Tok)
+    (hwf : (parseCB p true toks).2.1 ≠ MALFORMED) :
+    (parseCB p false toks).1 = (parseCB p true toks).1.map erase
+    ∧ (parseCB p false toks).2.1 = (parseCB p true toks).2.1 := by
+  have h := cif_erase p hp 1 (fuelFor toks) (St.init toks) hwf
+  have hinit : eraseSt (St.init toks) = St.init toks := rfl
+  rw [hinit] at h
+  unfold parseCB
+  refine ⟨?_, h.1⟩
+  dsimp only
+  rw [h.2]
+  simp [eraseSt, List.map_reverse]
+
 -- ---- the repaired defect F33, as a statement about the pinned variant ------------------------------------------------
 
 /-- before fix 43d0bb7 a positive answer of handle_loop_start did not skip the loop body: the packets were parsed (with
@@ -328,6 +342,11 @@ example : C15_subConts (parseCB (fun k _ => if k = 1 then -1 else 0) true (token
 example : C15_subConts (parseCB (fun k _ => if k = 2 then -1 else 0) true (tokensOf C15_demo)).2.2 (denote C15_demo) = true
     ∧ C15_subConts (denote C15_demo) (parseCB (fun k _ => if k = 2 then -1 else 0) true (tokensOf C15_demo)).2.2 = false := by
   decide +kernel
+-- syntax-only mode on the demo: same callbacks with the handles erased; the program below ignores its event argument
+example : HandleBlind (fun k _ => if k = 5 then -2 else 0) := fun _ _ => rfl
+example : (parseCB (fun k _ => if k = 5 then -2 else 0) true (tokensOf C15_demo)).2.1 ≠ MALFORMED := by decide +kernel
+example : ((parseCB (fun k _ => if k = 5 then -2 else 0) false (tokensOf C15_demo)).1.filter Ev.isHandler).length
+    = ((parseCB (fun k _ => if k = 5 then -2 else 0) true (tokensOf C15_demo)).1.filter Ev.isHandler).length := by decide +kernel
 -- END and a positive code at invocation 3 (frame_start): last callback, results 0 and 7
 example : (parseCB (fun k _ => if k = 3 then END else 0) true (tokensOf C15_demo)).2.1 = 0
     ∧ ((parseCB (fun k _ => if k = 3 then END else 0) true (tokensOf C15_demo)).1.filter Ev.isHandler).length = 4 := by decide +kernel
